@@ -7,7 +7,7 @@ from . import logixreq as Q
 from .harness import call
 
 META = {
-    "rule": "personalities {v17, v20, v32, m800} x connection {4000, 500} x projects {P1 atoms, P2 structures, P3 scopes} x memory images "
+    "rule": "personalities {v17, v20, v21, v32, m800} x connection {4000, 500} x projects {P1 atoms, P2 structures, P3 scopes} x memory images "
     "x the read-request alphabet derived from the project model (every tag; every member recursively; [i] for every index of small "
     "arrays and {0,1,mid,last} of large ones; index tuples of 2-/3-D arrays; {n} for n in {1,2,len-1,len}; .bit for every bit of "
     "SINT/INT leaves and boundary bits of DINT/LINT; BOOL-array indices and ranges around DWORD boundaries; program-scoped "
@@ -24,7 +24,7 @@ META = {
     ],
 }
 PROJECTS = ("P1", "P2", "P3")
-PERS = ("v17", "v20", "v32", "m800")
+PERS = ("v17", "v20", "v21", "v32", "m800")
 CONNS = (4000, 500)
 
 
